@@ -46,7 +46,9 @@ def make_frames():
     d2 = pd.DataFrame({"a": [10.0, 11.5, 9.25, 12.0, 8.5, 10.75], "b": [1.5, 7.0, 3.25, 2.0, 6.5, 4.0],
                        "A": pd.Series(["v", "w", "v", "w", "w", "v"], dtype=object),
                        "B": pd.Categorical(["q", "r", "p", "q", "r", "p"], categories=["r", "p", "q"])})
-    return {"d0": d0, "d1": d1, "d2": d2}
+    # plain dict-of-columns input (the pandas materializer builds its own frame from it)
+    dd = {"a": np.array(a), "b": list(b), "A": list(A), "B": np.array(B, dtype=object)}
+    return {"d0": d0, "d1": d1, "d2": d2, "dd": dd}
 
 
 def _double(x):
@@ -102,6 +104,16 @@ def _exc_digest(e):
 
 
 def _frames_equal(a, b):
+    if isinstance(a, dict) or isinstance(b, dict):
+        if not (isinstance(a, dict) and isinstance(b, dict)) or list(a) != list(b):
+            return f"dict data: keys/type changed ({type(a).__name__} {list(a)})"
+        for key in a:
+            x, y = a[key], b[key]
+            if type(x) is not type(y) or len(x) != len(y) or any(p != q for p, q in zip(list(x), list(y))):
+                return f"dict data: column {key!r} changed"
+            if isinstance(x, np.ndarray) and x.dtype != y.dtype:
+                return f"dict data: dtype of column {key!r} changed"
+        return None
     try:
         pd.testing.assert_frame_equal(a, b, check_exact=True, check_dtype=True, check_index_type=True,
                                       check_column_type=True, check_categorical=True, check_names=True, check_flags=True)
@@ -132,7 +144,7 @@ def _formula_state(F):
 
 def run_history(ops):
     D = make_frames()
-    D_before = {k: v.copy(deep=True) for k, v in D.items()}
+    D_before = {k: copy.deepcopy(v) for k, v in D.items()}
     CTX = make_context()
     CTX_before = dict(CTX)
     CTX_before["offset"] = CTX["offset"].copy()
@@ -190,7 +202,7 @@ def run_history(ops):
             d = _frames_equal(D[name], D_before[name])
             if d is not None:
                 mutations.append({"what": "data", "after_call": i, "object": name, "detail": d})
-                D[name] = D_before[name].copy(deep=True)
+                D[name] = copy.deepcopy(D_before[name])
         d = _ctx_equal(CTX, CTX_before)
         if d is not None:
             mutations.append({"what": "context", "after_call": i, "object": "context", "detail": d})
